@@ -181,6 +181,18 @@ def c10(ctx):
     return ctx.chk.merge(rs)
 
 
+def c13(ctx):
+    r = ctx.harness()
+    merged = ctx.chk.merge([r])
+    path = os.path.join(ctx.work, "written.jsonl")
+    rep = oparse_parallel(path)
+    os.remove(path)
+    merged["counters"]["streams_judged_by_python_parser"] = rep["records"]
+    merged["counters"]["elements_parsed_by_python_parser"] = rep["elements"]
+    parse_violations(merged, rep, "oparse")
+    return merged
+
+
 def c02(ctx):
     r = ctx.harness()
     merged = ctx.chk.merge([r])
@@ -206,4 +218,5 @@ PROPS = {
     "C08": {"run": simple, "level": "exploration"},
     "C09": {"run": legs("tables", "files"), "level": "exploration"},
     "C10": {"run": c10, "level": "exploration"},
+    "C13": {"run": c13, "level": "exploration"},
 }
